@@ -5,11 +5,10 @@
    message per planned instance; the records and containers added are exactly those of the success messages
    (recorded on the reported node with the reported resources, container running), nothing else is added;
    every node's usage grows by exactly the resources of the instances created on it (so failures leave no
-   record, container or usage).  C12_instance / C12_node are the per-instance and per-node statements it is
-   built from.  "The stream closes" and the order of sends are covered by C12_messages_scenarios (the boolean
-   the harness evaluates, for every fault position on explicit scenarios): in the index-addressed interpreter a
-   fault index may denote a channel send, which no real fault can hit, so statements about the channel are made
-   for the positions that are not sends.  Hypotheses: the plan is feasible for the plugin (every Alloc of it
+   record, container or usage); every message is sent on the channel, in order, and then the channel is closed
+   (cr_out: out w' = MClose :: rev ms ++ out w).  Fault positions are the faultable calls (store, resource
+   manager, engine, WAL, locks); a channel send is not a fault position.  C12_instance / C12_node are the per-instance and per-node statements it is
+   built from.  C12_messages_scenarios re-checks the boolean the harness evaluates on explicit scenarios.  Hypotheses: the plan is feasible for the plugin (every Alloc of it
    succeeds), its nodes exist and are distinct, no record/container of this op index exists yet. *)
 From Coq Require Import List ZArith.
 From Verif Require Import Base.Effects Calcium.World Calcium.Ops Calcium.Run Calcium.Sweeps
@@ -37,6 +36,7 @@ Theorem C12_plan : forall opi pod r plan w k,
     (forall n cnt, In (n, cnt) plan -> (rb_len rb n + created_on ms n = cnt)%nat) /\
     (forall n, ~ In n (map fst plan) -> rb_len rb n = 0%nat) /\
     (forall g, In g rb -> In (fst g) (map fst plan)) /\
+    out w' = rev ms ++ out w /\
     core3 w' w (wls w ++ map (wl_of pod) (created_of ms)) (conts w ++ map cont_of (created_of ms)).
 Proof. exact deploy_all_ms. Qed.
 Print Assumptions C12_plan.
